@@ -51,7 +51,7 @@ def run(ctx):
     links.extractor(facts, rep)
     links.parser_under_sgr(facts, rep)
     links.palette_tables(facts, rep)     # cap_wincon_color narrows Ansi256 through Ansi256Color::into_ansi
-    for r, n in (("cap-table", 3), ("wiring", 10), ("write_all-loop", 5), ("consumed-count", 1), ("errors", 3), ("vectored", 1), ("W4", 5)):
+    for r, n in (("cap-table", 3), ("wiring", 10), ("write_all-loop", 5), ("consumed-count", 1), ("errors", 3), ("vectored", 1), ("W4", 6)):
         rep.floor(r, n)
 
 
